@@ -410,6 +410,15 @@ def run(ctx):
                     hi = "9" * whole + ("." + "9" * frac if frac else "")
                     lo = rng.choice(["0", "-" + hi, "0." + "0" * frac if frac else "0"])
                     f["rule"] = "%s...%s" % (lo, hi)
+                    if whole >= 4 and rng.random() < 0.4:
+                        # several parts of different width, in any order: the column takes the digits of the widest
+                        # whole part and of the longest fraction
+                        wide = "1" + "0" * (whole - 1) + "..." + "9" * whole
+                        narrow = "0.25...99.75" if frac <= 2 else "0." + "0" * (frac - 1) + "1...99." + "9" * frac
+                        parts = [wide, narrow] + (["-5...-1"] if rng.random() < 0.5 else [])
+                        rng.shuffle(parts)
+                        f["rule"] = ", ".join(parts)
+                        ctx.count("decimal-fields.several-parts")
             elif t == "DateTime":
                 f["rule"] = rng.choice(["DD.MM.YYYY", "YYYY-MM-DD hh:mm:ss", "hh:mm"])
             else:
